@@ -14,7 +14,7 @@ for d in seeded/*/; do
   fi
   tests=$(cd "$wt" && PYTHONPATH="$wt/src" /venv/bin/python -m pytest -q -p no:cacheprovider 2>&1 | tail -1)
   demo=$(ls "$d"/demo_*.py | head -1)
-  cp "$demo" "$wt/" ; (cd "$wt" && sed -i "s#/tmp/wt_C[0-9]*#$wt#g" "$(basename "$demo")" && PYTHONPATH="$wt/src" /venv/bin/python "$(basename "$demo")" >/dev/null 2>&1); drc=$?
+  cp "$demo" "$wt/" ; (cd "$wt" && sed -i "s#/tmp/w[a-z0-9]*_C[0-9][0-9]#$wt#g" "$(basename "$demo")" && PYTHONPATH="$wt/src" /venv/bin/python "$(basename "$demo")" >/dev/null 2>&1); drc=$?
   out=$(VERIF_REPO="$wt" VERIF_EVIDENCE_DIR=/tmp/seedchk_ev VERIF_REPLAY_DIR=/tmp/seedchk_rp ./check "$prop" --tier quick 2>&1); rc=$?
   nv=$(echo "$out" | grep -c '^VIOLATION')
   echo "$sid ($prop): tests [$tests] demo_rc=$drc check_rc=$rc violations=$nv"
